@@ -33,12 +33,12 @@ func (w *zzClient) Header() http.Header {
 	return w.hdr
 }
 func (w *zzClient) WriteHeader(c int) {
+	if w.status != 0 {
+		w.superfluous++ // net/http logs "superfluous response.WriteHeader call" and ignores it
+		return
+	}
 	if c < 100 || c > 999 {
 		panic("invalid WriteHeader code")
-	}
-	if w.status != 0 {
-		w.superfluous++
-		return
 	}
 	w.status = c
 }
@@ -76,6 +76,9 @@ func zzDraw() zzBehaviour {
 		}
 	}
 	b.panicWhen = verifrt.Choose("panic", 3)
+	if b.writes && b.panicWhen == 0 {
+		b.err = verifrt.Bool("err-after-writing")
+	}
 	if !b.writes {
 		if b.panicWhen == 2 {
 			b.panicWhen = 1
@@ -103,6 +106,10 @@ func (h zzInner) ServeHTTP(w http.ResponseWriter, r *http.Request) (int, error) 
 		}
 		if b.panicWhen == 2 {
 			panic("inner handler panic after writing")
+		}
+		if b.err {
+			// a handler that has written its response reports an error for the log only
+			return 0, errors.New("inner error after writing")
 		}
 		return 0, nil
 	}
